@@ -890,6 +890,82 @@ func leaveAroundHandler(name, how string, bound int) *vx.Scenario {
 	return sc
 }
 
+// ---------------------------------------------------------------- 6. the client leaves a namespace while its CONNECT reply is in flight, then rejoins
+//
+// Two namespaces on one Manager. /b is connected and idle. /a is connected at t0; the server admits it at
+// once and its CONNECT reply travels for L of virtual time; the client calls Disconnect() on /a at
+// t0 + k*L/4 (reply in flight for k = 1..3, reply already processed for k = 5) and Connect() again later.
+// Leaving and rejoining one namespace must leave the other one connected, and at the end /a works again:
+// one socket on the server, one event delivered to it.
+func leaveWhileReplyInFlight(name string, k int, bound int) *vx.Scenario {
+	const L = time.Second
+	sc := &vx.Scenario{Name: name, Bound: bound, Horizon: 60 * time.Second}
+	sc.Body = func(e *vsched.Exec) func() vx.Result {
+		vsched.SetExploring(false)
+		srv, mgr, link := vrig.NewSioPair(nil, nil)
+		var v vsched.Var
+		got := map[string][]string{}
+		var sdisc, cdisc []string
+		for _, ns := range []string{"/a", "/b"} {
+			ns := ns
+			srv.Of(ns).Use(func(s sio.ServerSocket, h *sio.Handshake) any {
+				id := string(s.ID())
+				s.OnEvent("ev", func(tag string) { v.Do(func() { got[ns] = append(got[ns], tag+"@"+id) }) })
+				s.OnDisconnect(func(r sio.Reason) { v.Do(func() { sdisc = append(sdisc, ns+":"+string(r)) }) })
+				return nil
+			})
+			srv.Of(ns).OnConnection(func(s sio.ServerSocket) {})
+		}
+		up := map[string]int{}
+		sock := map[string]sio.ClientSocket{}
+		for _, ns := range []string{"/a", "/b"} {
+			ns := ns
+			s := mgr.Socket(ns, nil)
+			s.OnConnect(func() { v.Do(func() { up[ns]++ }) })
+			s.OnDisconnect(func(r sio.Reason) { v.Do(func() { cdisc = append(cdisc, ns+":"+string(r)) }) })
+			sock[ns] = s
+		}
+		sock["/b"].Connect()
+		vsched.Await(func() bool { return up["/b"] == 1 })
+		vrig.Settle(time.Second)
+		link.V.Do(func() { link.RespLatency = L })
+		vsched.SetExploring(true)
+		sock["/a"].Connect()
+		vsched.Sleep(time.Duration(k) * L / 4)
+		upAtLeave := 0
+		v.Do(func() { upAtLeave = up["/a"] })
+		sock["/a"].Disconnect()
+		vsched.Sleep(4 * L)
+		listedBetween := len(srv.Of("/a").Sockets())
+		sock["/a"].Connect()
+		vsched.Sleep(4 * L)
+		sock["/a"].Emit("ev", "a")
+		sock["/b"].Emit("ev", "b")
+		vsched.Sleep(4 * L)
+		return func() vx.Result {
+			var r vx.Result
+			na, nb := len(srv.Of("/a").Sockets()), len(srv.Of("/b").Sockets())
+			r.Outcome = fmt.Sprintf("up=%v cdisc=%v sdisc=%v got=%v a=%d b=%d", up, cdisc, sdisc, len(got["/a"])*10+len(got["/b"]), na, nb)
+			ctx := fmt.Sprintf("%s: '/a' Disconnect() %v after its Connect() (CONNECT reply takes %v; connected at that moment: %v), Connect() again 4 s later; client connect events %v, client disconnects %v, server disconnects %v; the server listed %d socket(s) in /a between the two connects and %d at the end (/b: %d); server handlers saw %v",
+				name, time.Duration(k)*L/4, L, upAtLeave > 0, up, cdisc, sdisc, listedBetween, na, nb, got)
+			for _, d := range cdisc {
+				if strings.HasPrefix(d, "/b:") {
+					r.Violate("client leaves and rejoins a namespace around its CONNECT reply: the other namespace was disconnected", "%s", ctx)
+					return r
+				}
+			}
+			if nb != 1 || len(got["/b"]) != 1 {
+				r.Violate("client leaves and rejoins a namespace around its CONNECT reply: the other namespace stopped working", "%s", ctx)
+			}
+			if na != 1 || len(got["/a"]) != 1 {
+				r.Violate("client leaves and rejoins a namespace around its CONNECT reply: the rejoined namespace does not work (one socket, one event expected)", "%s", ctx)
+			}
+			return r
+		}
+	}
+	return sc
+}
+
 func scenarios(tier string) []*vx.Scenario {
 	b := 1
 	if tier == "thorough" {
@@ -911,6 +987,9 @@ func scenarios(tier string) []*vx.Scenario {
 		sc.Shards = 8
 		s = append(s, sc)
 	}
+	for _, k := range []int{1, 2, 3, 5} {
+		s = append(s, leaveWhileReplyInFlight(fmt.Sprintf("client-leaves-while-connect-reply-in-flight/disconnect-at-%d-quarters-of-the-latency", k), k, b))
+	}
 	return s
 }
 
@@ -919,7 +998,7 @@ func main() {
 		Property: "C05",
 		Level:    "model_checking",
 		Rule: "server: explicit-state BFS (canonical state = joined namespaces per connection + how each socket that left did so, so that a rejoin after every way of leaving is explored) over histories of CONNECT / CONNECT-whose-connection-handler-kicks / EVENT / EVENT+ack / DISCONNECT / server-side kick / nsp.Emit / socket.Emit / cross-namespace ack race on 2 connections x {'/', '/a', '/ab', '/a/b', a non-existent one}, every history replayed on the real server and compared with a routing model after every step; " +
-			"concurrent connections in look-alike namespaces, and concurrent binary emits in two namespaces sharing one connection (frames of one packet stay together on the shared wire), explored to the bound; Go client: all 6 orders of CONNECT replies x early/late event placements against a raw Engine.IO endpoint; second namespace on an open connection; a socket leaving its namespace around its connection handler (kicked by the handler, kicked by a racing DisconnectSockets, client DISCONNECT during a slow handler) followed by a rejoin, explored to the bound. distinct_nontrivial = histories of length >= 2 + deviating schedules",
+			"concurrent connections in look-alike namespaces, and concurrent binary emits in two namespaces sharing one connection (frames of one packet stay together on the shared wire), explored to the bound; Go client: all 6 orders of CONNECT replies x early/late event placements against a raw Engine.IO endpoint; second namespace on an open connection; a socket leaving its namespace around its connection handler (kicked by the handler, kicked by a racing DisconnectSockets, client DISCONNECT during a slow handler) followed by a rejoin, explored to the bound; the Go client leaving a namespace while its CONNECT reply is in flight (latency L on poll answers, Disconnect() at k*L/4) and rejoining it, next to an idle second namespace on the same Manager. distinct_nontrivial = histories of length >= 2 + deviating schedules",
 		Scenarios: scenarios,
 		Budget: func(tier string) time.Duration {
 			if tier == "thorough" {
